@@ -56,6 +56,9 @@ def main(tier, seed, replay=None):
     roots = []
     for i in range(30 if tier == "quick" else 300):
         roots.append(("random", c01.gen_circuit(rs, i, tier, kinds=[("bern",), ("bern", "cat")][i % 2], clt=0.35)))
+    for i in range(8 if tier == "quick" else 60):
+        r = G.rand_nested_mixture(rs); assign_ids(r)
+        roots.append(("random", r))
     for r in learned_circuits(rs, 4 if tier == "quick" else 20):
         roots.append(("learned", r))
     cases = []; dist = dict(random=0, learned=0, keep_sets=0, rejected_keep_sets=0, rows=0, clt_leaves=0)
